@@ -405,6 +405,7 @@ def tour_cache_rules(ctx, tag="R3"):
     recomputed_from_new_nodes(ctx)
     from . import formulas
     formulas.tour_delta_signs(ctx, tag)
+    formulas.depot_replacement_tests(ctx, tag)
 
 
 def cycle_update_rules(ctx):
@@ -436,6 +437,7 @@ def rules(ctx):
     recomputed_from_new_nodes(ctx)
     from . import formulas
     formulas.tour_delta_signs(ctx, "R3")
+    formulas.depot_replacement_tests(ctx, "R3")
     cost_delta_form(ctx, s_sites)
     formation_update_order(ctx)
     componentwise_pair_updates(ctx)
